@@ -35,4 +35,5 @@ def tasks(tier):
         t.append(dict(module="dcheck", fn="h_deriv", shape=dict(m=2, n=3, fmt="csc")))
         t.append(dict(module="dcheck", fn="h_deriv", shape=dict(m=1, n=3, fmt="dense", scalar=True)))
     t += loop.loop_tasks([dict(policy="DualNorm", cons=["eq0"], deriv_check=True)], 2 if tier == "quick" else 3)
+    t += loop.loop_tasks([dict(policy="DualNorm", cons=["eq0"], deriv_check=True, second_solve=True), dict(policy="Constant", cons=[], vars=["boxed", "lower"], deriv_check=True, second_solve=True)], 1)
     return t
